@@ -549,6 +549,9 @@ func cmdReplay(path string) int {
 // workers: the solver processes of one obligation may run three at a time;
 // keep the total near the core count so that wall-clock timeouts stay meaningful.
 func workers() int {
+	if w := envInt("GOVC_WORKERS", 0); w > 0 {
+		return w
+	}
 	n := runtime.NumCPU() / 2
 	if n < 2 {
 		n = 2
